@@ -177,11 +177,13 @@ def body_axial(env):
 
 
 # ------------------------------------------------------------------ pins
-def _pin_spec(n, P, D, clad, Dw, f0, f1, lowfid=None):
-    big = (float(f0), float(f1))
+def _pin_spec(n, P, D, clad, Dw, fs, lowfid=None):
+    big = tuple(float(f) for f in fs)
     a = dict(n=n, P=float(P), D=float(D), Dw=float(Dw), clad=float(clad), ftf=big)
     if lowfid:
         a['lowfid'] = lowfid
+    if len(big) > 2:
+        a['extra'] = ['bypass_gap_flow_fraction = 0.05']
     return {'asms': {'a0': dict(n=2, ftf=(min(big) if min(big) > 0.03 else 0.2, max(big) if min(big) > 0.03 else 0.204)),
                      'a': a},
             'assign': [('a0', 1, 1, 'FLOWRATE=0.5'), ('a', 2, 1, 'FLOWRATE=0.5')], 'pitch': 1.05 * max(max(big), 0.03)}
@@ -194,25 +196,28 @@ def body_pin(env):
     D = env.real('pin_diameter', lo=-1, hi=1, nominal=0.0070)
     clad = env.real('clad_thickness', lo=-1, hi=1, nominal=0.0003)
     Dw = env.real('wire_diameter', lo=0, hi=1, lo_strict=False, nominal=0.001)
-    f0 = env.pos('duct_ftf_0', hi=2, nominal=0.2)
-    f1 = env.pos('duct_ftf_1', hi=2, nominal=0.204)
+    # the duct values in the order of the input line, which the reader does not prescribe (one or two ducts, any order)
+    noms = (0.2, 0.204) if env.params.get('ducts', 1) == 1 else (0.2, 0.204, 0.19, 0.194)
+    fs = [env.pos('duct_ftf_%d' % i, hi=2, nominal=v) for i, v in enumerate(noms)]
     env.assumption('wire_diameter >= 0 and duct_ftf > 0 (input template ranges / check_duct instances)')
     if env.mode == 'sym':
         with env.patch(MODS):
-            o = _reader(('pin', n, lowfid), _pin_spec(n, 0.0085, 0.0070, 0.0003, 0.001, 0.2, 0.204, lowfid))
+            o = _reader(('pin', n, lowfid, len(noms)), _pin_spec(n, 0.0085, 0.0070, 0.0003, 0.001, noms, lowfid))
             a = o.data['Assembly']['a']
             a['pin_pitch'], a['pin_diameter'], a['clad_thickness'], a['wire_diameter'] = P, D, clad, Dw
-            a['duct_ftf'] = [f0, f1]
+            a['duct_ftf'] = list(fs)
             out, info = _run_validator(env, lambda: ri.DASSH_Input.check_pin(o))
     else:
-        out, info = _pipeline(_pin_spec(n, P, D, clad, Dw, f0, f1, lowfid))
+        out, info = _pipeline(_pin_spec(n, P, D, clad, Dw, fs, lowfid))
     _outcome(env, out, info)
     env.gt('accepted: pin pitch positive', P, 0.0, key='nonpositive_dimension')
     env.gt('accepted: pin diameter positive', D, 0.0, key='nonpositive_dimension')
     env.gt('accepted: clad thickness positive', clad, 0.0, key='nonpositive_dimension')
     env.ge('accepted: pin pitch >= pin diameter', P, D, key='pins_overlap')
     env.le('accepted: clad not thicker than the pin radius', clad, D / 2, key='clad_thicker_than_radius')
-    fmin = core.sym_min(f0, f1) if env.mode == 'sym' else min(f0, f1)
+    fmin = fs[0]
+    for f in fs[1:]:
+        fmin = core.sym_min(fmin, f) if env.mode == 'sym' else min(fmin, f)
     if not lowfid:
         env.le('accepted: wire not thicker than the gap between pins', Dw, P - D, key='wire_too_thick')
     else:
@@ -413,6 +418,8 @@ def instances(tier):
         inst.append(dict(label='axial-regions[k=%d]' % k, body=body_axial, params={'k': k}, max_paths=4000, max_depth=60, timeout_ms=60000))
     for n in ((2, 3) if tier == 'quick' else (2, 3, 4, 6, 9)):
         inst.append(dict(label='pin[rings=%d]' % n, body=body_pin, params={'n_ring': n}))
+    for n in ((3,) if tier == 'quick' else (2, 3, 5)):
+        inst.append(dict(label='pin[rings=%d,ducts=2]' % n, body=body_pin, params={'n_ring': n, 'ducts': 2}, max_paths=4000))
     for lf in ('simple', '6node'):
         inst.append(dict(label='pin[rings=3,low-fidelity model %s]' % lf, body=body_pin, params={'n_ring': 3, 'lowfid': lf}))
     for nb in (1, 2):
